@@ -28,6 +28,8 @@ def run(ctx):
     r43_45(ctx, api)
     r44(ctx, wr)
     r46(ctx, api)
+    from . import c02
+    c02.r27(ctx, 'R4.7')
     from . import callsigs as _cs
     _cs.general_rules(ctx, 'R4', ['writer.write', 'writer.write_simple', 'writer.write_multi', 'writer.make_row_group', 'writer.make_part_file', 'writer.partition_on_columns', 'api.statistics', 'api.sorted_partitioned_columns'])
 
